@@ -335,13 +335,8 @@ func oracleC11(x *Exec) []Finding {
 		if !ok {
 			continue
 		}
-		ext := false
-		for _, a := range et.After {
-			if a.K == "href" && HasHostW(a.V) {
-				ext = true
-			}
-		}
-		_ = href
+		// host-qualified: as a browser reads the element, i.e. by its first href attribute (later duplicates are ignored)
+		ext := HasHostW(href)
 		rel, hasRel := firstAttr(et.After, "rel")
 		toks := relToks(rel)
 		desc := fmt.Sprintf("<%s%s> (from %v)", et.N, attrsString(et.After), et.Before)
